@@ -207,7 +207,9 @@ def main():
     base_path = os.path.join(HERE, 'baseline', prop + '.json')
     if a.update_baseline:
         os.makedirs(os.path.dirname(base_path), exist_ok=True)
-        json.dump(sorted(k for k, g in agg.items() if g['kind'] != 'canary' and g['ok'] == g['n']),
+        # 'safe' obligations are opportunistic (a side condition proved on the spot; otherwise the raising path is explored
+        # and must satisfy the function's exceptional contract): they are not part of the baseline
+        json.dump(sorted(k for k, g in agg.items() if g['kind'] not in ('canary', 'safe') and g['ok'] == g['n']),
                   open(base_path, 'w'), indent=1)
     baseline = set(json.load(open(base_path))) if os.path.exists(base_path) else set()
 
@@ -233,7 +235,7 @@ def main():
         else:
             undecided.append('PROOF-BROKEN obligation=%s (%s) not discharged; auxiliary step, property undecided'
                              % (oid, g['text'][:100]))
-    for oid in sorted(baseline - set(agg)):
+    for oid in sorted(o for o in baseline - set(agg) if '/safe[' not in o):
         undecided.append('baseline obligation vanished (contract drift): %s' % oid)
 
     native_new = []
@@ -318,6 +320,8 @@ def main():
         'violations': len(vio_lines),
     }
     evdir = os.environ.get('VERIF_EVIDENCE_DIR') or os.path.join(HERE, 'evidence')   # seeded-mutant runs write elsewhere
+    if a.no_native and not os.environ.get('VERIF_EVIDENCE_DIR'):
+        evdir = os.path.join(HERE, 'out', 'evidence_dev')       # development runs never touch the committed evidence
     os.makedirs(evdir, exist_ok=True)
     json.dump(ev, open(os.path.join(evdir, prop + '.json'), 'w'), indent=1, default=str)
 
